@@ -462,6 +462,19 @@ func c01Gen(o *vk.Out) c01In {
 			in.To, in.From = pick(), ""
 		}
 	}
+	// the old master is alive and holds what no replica has received (stuck receivers): the frozen old master then is
+	// the most recent member, the catch-up source of the new master and a party to the split-brain test
+	if in.From == "h1" && in.To == "" && !in.Nodes[0].Down && r.Intn(3) == 0 {
+		in.Nodes[0].Executed = "1-105"
+		for i := 1; i < in.N; i++ {
+			if r.Intn(4) != 0 {
+				in.Nodes[i].IOErrno = []int{1236, 2003}[r.Intn(2)]
+			}
+			if r.Intn(6) == 0 {
+				in.Nodes[i].Down = true
+			}
+		}
+	}
 	if in.Transition == "switchover" {
 		in.SemiSync = false // the semi-sync optimisation phase is covered by C19
 	}
